@@ -7,7 +7,7 @@ pub use super::envlem::dec;
 
 /// Numeric value a variable denotes; None = evaluation must report an error.
 pub open spec fn var_value<E: Env>(env: E, name: Seq<char>) -> Option<i64> {
-    if env.get_fails(name) { None }
+    if E::get_fails(name) { None }
     else if !env.vars().contains_key(name) { Some(0i64) }
     else { parse_spec::<i64>(env.vars()[name]) }
 }
@@ -33,7 +33,7 @@ pub open spec fn env_same<E: Env>(pre: E, post: E) -> bool {
 /// Outcome of storing `v` into `name`: either the store is updated at exactly that
 /// name with the decimal text and the value is returned, or an error and no change.
 pub open spec fn assign_contract<E: Env, X>(pre: E, post: E, name: Seq<char>, v: i64, res: Result<Value, X>, ret: i64) -> bool {
-    if pre.assign_fails(name, dec(v)) { res is Err && env_same(pre, post) }
+    if E::assign_fails(name, dec(v)) { res is Err && env_same(pre, post) }
     else { res == Ok::<Value, X>(Value::Integer(ret)) && post.vars() == pre.vars().insert(name, dec(v)) }
 }
 
